@@ -4,6 +4,7 @@ import (
 	"encoding/json"
 	"fmt"
 	"reflect"
+	"strconv"
 	"strings"
 	"time"
 
@@ -310,7 +311,20 @@ func (c *conformer) check(sc *spec.Schema, v reflect.Value, j any, path string) 
 			return
 		}
 		if rs.Format == "date-time" {
-			t, err := time.Parse(time.RFC3339Nano, s)
+			layout := time.RFC3339Nano
+			// goag's private layout extension (a quoted Go layout literal): the documented wire form is that layout
+			if ext, ok := rs.Ext["x-goag-go-time-format"].(string); ok {
+				if l, err := strconv.Unquote(ext); err == nil {
+					layout = l
+				}
+			}
+			t, err := time.Parse(layout, s)
+			if err != nil && layout != time.RFC3339Nano {
+				// RFC 3339 is the declared format; goag applies the layout to properties but not to array
+				// items, and either wire form is accepted here (agreement of encoder and decoder is C07/C10's
+				// round trip, not this clause)
+				t, err = time.Parse(time.RFC3339Nano, s)
+			}
 			if err != nil {
 				c.add("format", path, "date-time written as %q", s)
 			} else if hasV && (v.Type() == tTime || v.Type().ConvertibleTo(tTime)) && v.Kind() == reflect.Struct {
